@@ -2,8 +2,6 @@ const fs = require("fs");
 const path = require("path");
 require("./wasm_exec.js");
 
-const go = new Go();
-
 /**
  * Initializes the WASM runtime and loads the OTP module.
  *
@@ -15,6 +13,10 @@ module.exports = async function initWasm() {
   const wasmPath = path.resolve(__dirname, "../lib/otp.wasm");
   const buffer = fs.readFileSync(wasmPath);
 
+  // one Go object per program instance: a shared one keeps the timeouts the
+  // previous instance has scheduled, and when such a timeout fires after
+  // another initWasm() the runtime glue spins on it for ever
+  const go = new Go();
   const { instance } = await WebAssembly.instantiate(buffer, go.importObject);
 
   go.run(instance);
